@@ -28,13 +28,14 @@ func c02Packets(r *rand.Rand, perLen int, emit func(p packet.Packet, kind string
 			if ln == 183 && k%2 == 1 {
 				hasPay = true // degenerate: AFC 11, adaptation field fills the packet, empty payload
 			}
+			blank := k == 0 || (ln == 183 && k == 1) // no optional fields: the field is all stuffing
 			var p packet.Packet
 			if ln == 0 {
 				r.Read(p[:])
 				p[0], p[3], p[4] = 0x47, p[3]&0x0f|0x30, 0
 			} else {
 				a := randAF(r, ln)
-				if k == 0 {
+				if blank {
 					a = absAF{Len: ln}
 				}
 				p = pktWithAF(r, a, hasPay)
@@ -81,6 +82,26 @@ func (c02) Gen(tier string, seed int64, emit func([]Ev)) {
 			}
 			emit([]Ev{{"op": "setpayload", "before": B(p[:]), "data": B(d), "kind": kind}})
 		}
+		// SetPayload applied repeatedly to the same packet: each result is again a well-formed packet
+		if kind != "af-only" && (n%2 == 0 || room == 0) {
+			var h []Ev
+			for k := 2 + r.Intn(3); k > 0; k-- {
+				ln := []int{0, 0, 1, r.Intn(201), r.Intn(185), 184, 183}[r.Intn(7)]
+				d := make([]byte, ln)
+				r.Read(d)
+				for i := range d {
+					if d[i] == 0xff {
+						d[i] = 0xab
+					}
+				}
+				ev := Ev{"op": "setpayload", "data": B(d), "kind": kind, "chain": len(h) > 0}
+				if len(h) == 0 {
+					ev["before"] = B(p[:])
+				}
+				h = append(h, ev)
+			}
+			emit(h)
+		}
 		if n%3 == 0 {
 			d := make([]byte, r.Intn(201))
 			r.Read(d)
@@ -109,7 +130,16 @@ func (c02) Gen(tier string, seed int64, emit func([]Ev)) {
 }
 
 func (c02) Exec(h []Ev) []Ev {
+	var prev []byte // the packet as the previous SetPayload of this history left it
 	for _, e := range h {
+		if ch, _ := e["chain"].(bool); ch {
+			if prev == nil {
+				e["panic"] = "skipped-after-panic"
+				continue
+			}
+			e["before"] = B(prev)
+		}
+		prev = nil
 		e["panic"] = guard(func() {
 			switch GS(e["op"]) {
 			case "parts":
@@ -142,6 +172,7 @@ func (c02) Exec(h []Ev) []Ev {
 					panic("data modified")
 				}
 				e["after"] = B(p[:])
+				prev = append([]byte(nil), p[:]...)
 				rb, rerr := p.Payload()
 				e["readback"], e["readback_err"] = B(rb), rerr != nil
 			case "setpayload_fn":
